@@ -94,6 +94,17 @@ GrantSafe ==
           IF ret'[n][Len(ret'[n])] = "ok" THEN rec = None \/ rec.owner = n \/ rec.until = "past"
           ELSE rec = None \/ rec.owner = n]_vars     \* (deleting an already absent record removes nothing)
 
+\* the inductive invariant of spec/proofs/LeaseU.tla (proved there with TLAPS for any set of nodes and any number of
+\* calls), stated on this module's variables: TLC checks that it holds in every reachable state here as well
+MayWrite(n, k, r) == IF k \in {"LL", "LE"} THEN r = None \/ r.owner = n \/ r.until = "past"
+                     ELSE r # None /\ r.owner = n
+IndInvL ==
+  /\ rec.ver <= idx
+  /\ \A n \in Nodes : rd[n].ver <= idx
+  /\ \A n \in Nodes : (rd[n] # None /\ rec # None /\ rd[n].ver = rec.ver) => rd[n] = rec
+  /\ \A n \in Nodes : phase[n] = "write" => MayWrite(n, Cur(n), rd[n])
+  /\ held = IF rec.until = "future" THEN {rec.owner} ELSE {}
+
 AllDone == \A n \in Nodes : ~Active(n)
 Export == AllDone /\ Record /\ (Sample = 0 \/ RandomElement(1..Sample) = 1) =>
             PrintT("BEHAVIOUR " \o ToJson([prog |-> [n \in 1..Cardinality(Nodes) |-> prog[n]], sched |-> hist]))
